@@ -224,7 +224,7 @@ def run_transfer(env, cfg):
     with running(loop):
         task = loop.create_task(main())
     loop.run(until=task, horizon=2000)
-    obs = {"done": task.done(), "res": res.get("r"), "dt": res.get("dt"), "lock": tcs.zone_lock_idx, "log": log, "T": T, "sched_ver": sch._sched_ver, "ver": ver, "counter": counter}
+    obs = {"cached": sch.schedule, "done": task.done(), "res": res.get("r"), "dt": res.get("dt"), "lock": tcs.zone_lock_idx, "log": log, "T": T, "sched_ver": sch._sched_ver, "ver": ver, "counter": counter}
     # follow-up: another zone's transfer against a now well-behaved controller
     if task.done():
         state["n"], state["fails"], cfg2 = 0, 10**6, dict(cfg, max_x=50)
@@ -269,6 +269,9 @@ def oracle(env, cfg, obs):
             env.check(obs["sched_ver"] <= want or is_b, "C18:schedule-agrees-with-the-change-counter", info=f"ver={obs['sched_ver']:#x}")
     if cfg["op"] == "get":
         env.check(obs["dt"] <= obs["T"] + Fraction(1, 100), "C18:ends-within-the-caller's-timeout", info=str(obs["dt"]))
+    if cfg["op"] == "set" and r[0] == "exc":
+        # a write that failed must not leave the never-stored schedule behind as this zone's schedule
+        env.check(obs["cached"] != obs["ver"]["B"]["schedule"], "C18:a-failed-write-leaves-no-phantom-schedule")
     env.check(obs["lock"] is None, "C18:transfer-lock-released", info=str(obs["lock"]))
     f = obs.get("follow")
     env.check(f is not None and f[0] == "ok" and f[1] == obs["ver"]["other"]["schedule"], "C18:a-later-transfer-for-another-zone-completes", info=str(f)[:100] if f and f[0] != "ok" else None)
